@@ -236,6 +236,25 @@ def gen_window_edge(rng):
     return ops
 
 
+def gen_write_pressure(rng):
+    """Multi-frame writes while the carrier is Pending and the encrypt buffer (W frames) already holds earlier frames:
+    only a prefix of the caller's buffer may be accepted, never a later chunk out of order."""
+    F, W = rng.choice([1, 2, 5]), rng.choice([2, 2, 3])
+    ops = [f"cfg {F} {W}", "carrier wscript " + " ".join(["p"] * rng.randrange(3, 9))]
+    frames = 0
+    for _ in range(rng.randrange(2, 5)):
+        n = rng.choice([65519, 65519, 65000, 30000, 100, 1,
+                        65519 + rng.choice([1, 5, 100, 1000, 20000]),
+                        2 * 65519 + rng.choice([0, 1, 7, 500, 30000]), 200000])
+        ops.append(f"write {n}")
+        frames += n // FRAME + 2
+        if rng.random() < 0.25:
+            ops.append("flush")
+    ops += ["carrier clear", "flush", "carrier deliver all", "carrier close"]
+    ops += [f"read {rng.choice([65536, 131072])}" for _ in range(frames + 3)]
+    return ops
+
+
 def corpus():
     return [
         # DESIGN §8 (a): a write of MAX_FRAME_LEN+1 bytes (65520 on the old constants) must succeed
@@ -262,6 +281,8 @@ def gen_cases(rng, tier):
         r = i % 12
         if r == 9 and (i // 12) % 2 == 0:
             yield gen_window_edge(rng)
+        elif r == 8 and (i // 12) % 2 == 1:
+            yield gen_write_pressure(rng)
         elif r == 10:
             yield gen_onebyte(rng)
         elif r == 11:
